@@ -117,11 +117,13 @@ def case(W, cfg):
     else:
         da = xr.DataArray(data[0], dims=["face", "yc", "xc"])
     ops, tos = cfg["ops"], cfg["tos"]
-    for rule in ("fill", "extend", "periodic"):
+    for rule in ("fill", "fill-per-axis", "extend", "periodic"):
+        per_axis = rule == "fill-per-axis"
+        rule = "fill" if per_axis else rule
         with warnings.catch_warnings():
             warnings.simplefilter("ignore")
             try:
-                grid = xgcm.Grid(ds, coords=AX_COORDS, periodic=False, boundary=rule, fill_value=2.5,
+                grid = xgcm.Grid(ds, coords=AX_COORDS, periodic=False, boundary=rule, fill_value=({"X": 2.5, "Y": -1.5} if per_axis else 2.5),
                                  face_connections={"face": table}, autoparse_metadata=False)
             except Exception as e:
                 W.fail("table-rejected:%s" % type(e).__name__, "geometrically consistent table refused: %s" % e)
@@ -129,8 +131,9 @@ def case(W, cfg):
         for axname in ("X", "Y"):
             for to in tos:
                 for op in ops:
-                    lab = "%s:%s:%s->%s" % (rule, op, axname, to)
-                    r = getattr(grid, op)(da, axname, to=to, fill_value=fv)
+                    lab = "%s%s:%s:%s->%s" % (rule, "-per-axis" if per_axis else "", op, axname, to)
+                    # per-axis variant: the grid-level fill values (different per axis) are in force, none is given per call
+                    r = getattr(grid, op)(da, axname, to=to, **({} if per_axis else {"fill_value": fv}))
                     cd = AX_COORDS[axname]["center"]
                     exp_dims = tuple(AX_COORDS[axname][to] if d == cd else d for d in da.dims)
                     W.require("dims:" + lab, tuple(r.dims) == exp_dims, "%s want %s" % (r.dims, exp_dims))
@@ -140,7 +143,7 @@ def case(W, cfg):
                     got, want = [], []
                     for tt in range(nt):
                         GG = G if tt == 0 else [[v * 2 + 1 for v in row] for row in G]
-                        fl = fv
+                        fl = ({"X": 2.5, "Y": -1.5}[axname] if per_axis else fv)
                         for f in range(F):
                             own = [[data[tt, f, j, i] for i in range(N)] for j in range(N)]
                             e = oracle(dec, GG, f, axname, to, op, rule, fl, own)
